@@ -53,31 +53,31 @@ func parentCases() []string {
 	if core.Thorough() {
 		cs = append(cs, "limit/at", "limit/over")
 	}
-	for i := 0; i < core.Pick(4, 60); i++ {
+	for i := 0; i < core.Pick(4, 40); i++ {
 		cs = append(cs, fmt.Sprintf("contend/%d", i))
 	}
-	for i := 0; i < core.Pick(2, 40); i++ {
+	for i := 0; i < core.Pick(2, 24); i++ {
 		cs = append(cs, fmt.Sprintf("mesh/big/%d", i))
 	}
-	for i := 0; i < core.Pick(5, 200); i++ {
+	for i := 0; i < core.Pick(5, 100); i++ {
 		cs = append(cs, fmt.Sprintf("mesh/boundary/%d", i))
 	}
-	for i := 0; i < core.Pick(10, 400); i++ {
+	for i := 0; i < core.Pick(10, 250); i++ {
 		cs = append(cs, fmt.Sprintf("mesh/small/%d", i))
 	}
 	for _, k := range hostileKinds {
 		if strings.HasPrefix(k, "overlimit") || k == "at-limit" {
 			continue
 		}
-		for i := 0; i < core.Pick(2, 30); i++ {
+		for i := 0; i < core.Pick(2, 16); i++ {
 			cs = append(cs, fmt.Sprintf("hostile/%s/%d", k, i))
 		}
 	}
-	for i := 0; i < core.Pick(3, 30); i++ {
+	for i := 0; i < core.Pick(3, 20); i++ {
 		cs = append(cs, fmt.Sprintf("early-send/%d", i))
 	}
 	for _, k := range teardownKinds {
-		for i := 0; i < core.Pick(2, 40); i++ {
+		for i := 0; i < core.Pick(2, 25); i++ {
 			cs = append(cs, fmt.Sprintf("teardown/%s/%d", k, i))
 		}
 	}
@@ -102,7 +102,7 @@ func raceChildren() []childSpec {
 	shards := 1
 	if core.Thorough() {
 		procs = []int{2, 4, 16}
-		shards = 6
+		shards = 4
 	}
 	for _, p := range procs {
 		for s := 0; s < shards; s++ {
@@ -125,7 +125,7 @@ func raceChildren() []childSpec {
 				}
 				cs = append(cs, fmt.Sprintf("%shostile/%s/0", pre, k))
 			}
-			cs = append(cs, pre+"early-send/0", pre+"early-send/1", pre+"inbox-full/0")
+			cs = append(cs, pre+"early-send/0", pre+"early-send/1", pre+"inbox-full/0", pre+"contend/0")
 			out = append(out, childSpec{Procs: p, Shard: s, Cases: cs})
 		}
 	}
@@ -305,7 +305,7 @@ func TestCheck(t *testing.T) {
 			"and every accepted message was accounted for, plus distinct (hostile script, topics), (teardown kind, mode, buffer, trigger count), "+
 			"inbox-overflow and send-timeout cases in which the event aimed at was actually observed")
 	defer run.Finish()
-	run.MinDistinct = core.Pick(40, 400)
+	run.MinDistinct = core.Pick(40, 300)
 	run.Assume("SHA-256 is collision free; the in-memory link delivers bytes in order and unmodified (it is the harness's own 200 lines)")
 	run.Assume("losses are accepted only when the code itself logged 'Inbox ... queue full' for that node and topic, or after a teardown of that connection")
 
@@ -319,7 +319,7 @@ func TestCheck(t *testing.T) {
 	// crash-in-canopy signature), which must cost one observation, not the run.
 	var children []childSpec
 	plain := filter(run, parentCases())
-	shards := core.Pick(3, 4)
+	shards := core.Pick(3, 6)
 	for s := 0; s < shards; s++ {
 		ch := childSpec{Shard: s, Budget: core.Pick(4, 4)}
 		for i, n := range plain {
